@@ -342,7 +342,12 @@ def build_sysloss(rec, dk_dict=None, onehot=None):
             act = lambda n: n["bnd"] and n["bnd"][0]["kind"] != "none"
             kw.update(omega_boundary_fun_dict={n["name"]: (mk_f(n["bnd"][0]["g"]) if act(n) else None) for n in rec["nets"]},
                       omega_boundary_condition_dict={n["name"]: (cname[n["bnd"][0]["kind"]] if act(n) else None) for n in rec["nets"]},
-                      omega_boundary_dim_dict={n["name"]: (jnp.s_[0:1] if act(n) else None) for n in rec["nets"]})
+                      omega_boundary_dim_dict={n["name"]: (jnp.s_[n["bnd"][0]["comp"][0] - 1:n["bnd"][0]["comp"][1]] if act(n) else None)
+                                               for n in rec["nets"]})
+        if any(n.get("norm", {}).get("on") for n in rec["nets"]):
+            kw.update(norm_samples_dict={n["name"]: (jnp.asarray(np.array(n["norm"]["samples"], dtype=np.float64)) if n.get("norm", {}).get("on") else None)
+                                         for n in rec["nets"]},
+                      norm_int_length_dict={n["name"]: (float(n["norm"]["L"]) if n.get("norm", {}).get("on") else None) for n in rec["nets"]})
         if lkind == "nonstatio" and any(n["ic"]["on"] for n in rec["nets"]):
             def mk_u0(n):
                 u0 = n["ic"]["u0"]
